@@ -85,6 +85,9 @@ def do_open(req):
     c = sqlite3.connect(req["path"], timeout=0, isolation_level=None, uri=uri,
                         check_same_thread=False, cached_statements=0)
     c.text_factory = bytes
+    # an application-defined collation (reverse code point order): files that use one are
+    # legal SQLite databases which sqlittle cannot order - it must say so, not guess
+    c.create_collation("mycoll", lambda a, b: (a < b) - (a > b))
     conns[cid] = c
     for p in (req.get("pragmas") or []):
         c.execute(p).fetchall()
